@@ -40,6 +40,9 @@ inductive Routine
 /-- the pure work, uninterpreted -/
 structure Work (L Z R : Type) where
   compute : Routine → List L → Z                         -- zone of the reference (compute_lzone / compute_izone)
+  /-- the zone computation can FAIL on what was read (ValueError: not exactly two chains; a reference that does not parse): the
+      code raises inside `compute_?zone`, i.e. after the reference is read and BEFORE `_write_zone` — nothing is written then -/
+  computeErr : Routine → List L → Option Err := fun _ _ => none
   render : Z → List L                                     -- the lines `_write_zone` writes
   parse : List L → Except Err Z                           -- `read_zone`
   check : Routine → Nat → List (List L) → Except Err Unit -- chain / residue checks (stage 0, 1) that may raise before further I/O
@@ -99,16 +102,21 @@ def readZone (W : Work L Z R) (f : P) (k : Z → Prog P L R) : Prog P L R :=
       | .error e => .fail e
     else .fail .fileNotFound
 
-/-- the zone-file cache of the fast routines: `elif not os.path.isfile(zone): compute, save … else: read_zone` -/
+/-- the zone-file cache of the fast routines: `elif not os.path.isfile(zone): compute, save … else: read_zone`;
+    a zone computation that fails raises before anything is written -/
 def withZone (W : Work L Z R) (zr : Routine) (ref f tmp : P) (k : Z → Prog P L R) : Prog P L R :=
   .isFile f fun b =>
     if b then readZone W f k
-    else loadPdb ref fun rc => writeZone tmp f (W.render (W.compute zr rc)) (k (W.compute zr rc))
+    else loadPdb ref fun rc => match W.computeErr zr rc with
+      | some e => .fail e
+      | none => writeZone tmp f (W.render (W.compute zr rc)) (k (W.compute zr rc))
 
 /-- `lzone=None | <name>` (`zr` = which zone routine computes: `compute_lzone` or `compute_izone`) -/
 def zoneArg (W : Work L Z R) (zr : Routine) (a : Args P) (k : Z → Prog P L R) : Prog P L R :=
   match a.zone with
-  | none => loadPdb a.ref fun rc => k (W.compute zr rc)
+  | none => loadPdb a.ref fun rc => match W.computeErr zr rc with
+    | some e => .fail e
+    | none => k (W.compute zr rc)
   | some f => withZone W zr a.ref f a.tmp k
 
 /-- the two optional exports of the SQL score routines (`exportpath is not None`) -/
